@@ -263,7 +263,25 @@ impl Check for C03 {
         let mut hlen = 0usize;
         let mut hot: Vec<usize> = Vec::new();
         let mut stream: Vec<u8>;
-        match rng.below(20) {
+        match rng.below(22) {
+            20 | 21 => {
+                // one entry of the single-element corruption dictionaries (C12), here only for
+                // the monitors: no panic, no hang, in both build profiles
+                let base = loop {
+                    let w = wire::gen_v1(rng, true);
+                    if w.bytes.len() <= 107 {
+                        break w.bytes;
+                    }
+                };
+                let all = super::c12::v1_corruption_streams(&base);
+                sc.sub = "dictionary_corruption".into();
+                sc.set_tag("fault", "dictionary_corruption");
+                stream = if all.is_empty() {
+                    base
+                } else {
+                    all[rng.below(all.len())].clone()
+                };
+            }
             0..=5 => {
                 let hs = gen_hop_stream(rng, false, true, 45);
                 sc.sub = "well_formed".into();
